@@ -168,14 +168,15 @@ func (r *vC19Run) state() map[string]interface{} {
 	reqs := r.requests()
 	keys, hdrs, leaks := map[string]bool{}, map[string]bool{}, map[string]bool{}
 	urlOK, idsOK := true, true
-	if n := len(reqs); n > 0 {
+	// key paths and header names of EVERY request (a field that is only sometimes present must show)
+	for _, q := range reqs {
 		var p interface{}
-		if json.Unmarshal(reqs[n-1].body, &p) == nil {
+		if json.Unmarshal(q.body, &p) == nil {
 			vC19KeyPaths("", p, keys)
 		} else {
 			keys["<not json>"] = true
 		}
-		for h := range reqs[n-1].header {
+		for h := range q.header {
 			hdrs[h] = true
 		}
 	}
@@ -220,6 +221,7 @@ func (r *vC19Run) state() map[string]interface{} {
 		"leaks":     vC19Sorted(leaks),
 		"urlOK":     urlOK,
 		"idsOK":     idsOK,
+		"aged":      false, // the collector's clock is not reachable from package server
 	}
 }
 
@@ -375,6 +377,12 @@ func TestVerifC19Server(t *testing.T) {
 	if v := os.Getenv("VERIF_PAR"); v != "" {
 		fmt.Sscanf(v, "%d", &par)
 	}
+	// guarded mode: a collector that is wrongly started with a non-positive interval panics in its own
+	// goroutine and kills the process; the runner turns that into an observation for the pending step
+	intentPath := os.Getenv("VERIF_INTENT")
+	if intentPath != "" {
+		par = 1
+	}
 	var (
 		wg    sync.WaitGroup
 		outMu sync.Mutex
@@ -385,12 +393,27 @@ func TestVerifC19Server(t *testing.T) {
 			{
 				r := &vC19Run{t: t, id: b.ID, name: fmt.Sprintf("c19n%d", b.ID), route: b.Cfg["route"].(map[string]interface{}),
 					rec: rec, secrets: map[string][]string{}, exclusive: exclusive, startIdx: rec.count()}
-				lines := []interface{}{map[string]interface{}{"a": "Open", "t": b.ID, "route": r.route, "st": r.state(),
-					"obs": map[string]interface{}{"a": "Open", "err": ""}}}
-				for _, s := range b.Steps {
+				lines := []interface{}{}
+				put := func(l map[string]interface{}) {
+					if intentPath == "" {
+						lines = append(lines, l)
+						return
+					}
+					// guarded mode (one server at a time): every line is on disk before the next step starts
+					tw.Emit(l)
+					tw.w.Flush()
+				}
+				st := r.state()
+				put(map[string]interface{}{"a": "Open", "t": b.ID, "route": r.route, "st": st,
+					"obs": map[string]interface{}{"a": "Open", "err": ""}})
+				for sn, s := range b.Steps {
+					if intentPath != "" {
+						ib, _ := json.Marshal(map[string]interface{}{"t": b.ID, "step": sn, "a": vStr(s, "a"), "route": r.route, "st": st})
+						os.WriteFile(intentPath, ib, 0o644)
+					}
 					obs := r.step(vStr(s, "a"))
-					lines = append(lines, map[string]interface{}{"a": vStr(s, "a"), "t": b.ID, "route": r.route,
-						"st": r.state(), "obs": obs})
+					st = r.state()
+					put(map[string]interface{}{"a": vStr(s, "a"), "t": b.ID, "route": r.route, "st": st, "obs": obs})
 				}
 				if r.srv != nil && !r.stopped {
 					r.srv.Stop()
